@@ -70,8 +70,25 @@ var c20ModelErr = errors.New("c20 model: stage failed")
 type c20Scen struct {
 	name    string
 	signals []syscall.Signal
-	// class of worker paths offered to the FIRST accepted request ("" = all); later requests get all paths.
-	firstClass string
+	// per accepted request (1st, 2nd, ...): the class of worker paths offered ("" = every class) and whether the
+	// request is explored through ALL its alternatives or only through one canonical representative (the product of two
+	// fully explored requests is mostly redundant: the system returns to nearly the same rest state in between).
+	class []string
+	canon []bool
+}
+
+func (sc *c20Scen) classOf(req int) string {
+	if req >= 1 && req <= len(sc.class) {
+		return sc.class[req-1]
+	}
+	return ""
+}
+
+func (sc *c20Scen) canonical(req int) bool {
+	if req >= 1 && req <= len(sc.canon) {
+		return sc.canon[req-1]
+	}
+	return true
 }
 
 type c20Retire struct {
@@ -306,7 +323,7 @@ func (h *c20H) step(role string, name string, f func()) {
 }
 
 // walk executes one iteration of a loop body: returns the path taken (nil on a model gap).
-func (h *c20H) walk(role string, set []*c20Path) *c20Path {
+func (h *c20H) walk(role string, set []*c20Path, req int) *c20Path {
 	type grp struct {
 		key     string
 		members []*c20Path
@@ -352,7 +369,16 @@ func (h *c20H) walk(role string, set []*c20Path) *c20Path {
 		}
 		g := groups[0]
 		if len(groups) > 1 {
-			g = groups[vsched.ChooseFree(len(groups), role+"-path")]
+			if h.sc.canonical(req) {
+				// canonical representative: the alternative shared by most extracted paths (first one on a tie)
+				for _, c := range groups[1:] {
+					if len(c.members) > len(g.members) {
+						g = c
+					}
+				}
+			} else {
+				g = groups[vsched.ChooseFree(len(groups), role+"-path")]
+			}
 		}
 		switch {
 		case strings.HasPrefix(g.key, "END"):
@@ -394,15 +420,15 @@ func (h *c20H) workerLoop() {
 		h.req = req
 		h.workerIdx++
 		set := c20WorkerPaths
-		if h.sc.firstClass != "" && h.workerIdx == 1 {
+		if cls := h.sc.classOf(h.workerIdx); cls != "" {
 			set = nil
 			for _, p := range c20WorkerPaths {
-				if p.Exit != "" || c20Class(p) == h.sc.firstClass {
+				if p.Exit != "" || c20Class(p) == cls {
 					set = append(set, p)
 				}
 			}
 		}
-		p := h.walk("W", set)
+		p := h.walk("W", set, h.workerIdx)
 		if p == nil {
 			h.workerAt = "model-gap"
 			return
@@ -432,7 +458,7 @@ func (h *c20H) mainLoop() {
 			h.mainAt = "stopped"
 			return
 		}
-		p := h.walk("M", c20MainPaths)
+		p := h.walk("M", c20MainPaths, h.workerIdx)
 		if p == nil {
 			h.mainAt = "model-gap"
 			return
@@ -474,7 +500,11 @@ func (h *c20H) signalThread() {
 func (h *c20H) spawnServe(tail func(h *c20H)) {
 	rc := h.readyChan
 	h.serveStarted++
-	switch vsched.ChooseFree(3, "serve-outcome") {
+	outcome := 0
+	if !h.sc.canonical(h.workerIdx) {
+		outcome = vsched.ChooseFree(3, "serve-outcome")
+	}
+	switch outcome {
 	case 0:
 		rc <- true
 		h.lateTails = append(h.lateTails, tail)
@@ -522,7 +552,11 @@ func (h *c20H) startRetirement() {
 }
 
 func (h *c20H) retireGate(rt *c20Retire) {
-	if vsched.ChooseFree(2, "retirement-ends") == 0 {
+	long := true
+	if !h.sc.canonical(rt.owner) {
+		long = vsched.ChooseFree(2, "retirement-ends") == 0
+	}
+	if long {
 		// long retirement: it lasts until every signal of the scenario was raised and taken
 		vsched.WaitUntil(func() bool { return (h.sigDone && len(h.sigs) == 0) || h.stopping })
 	}
@@ -787,16 +821,24 @@ const (
 )
 
 func VerifC20Scenarios(thorough bool) []*vsched.Scenario {
+	R, S := c20R, c20S
+	sig := func(s ...syscall.Signal) []syscall.Signal { return s }
+	// "X*" = request explored through every extracted alternative of class X, "x" = canonical representative only
 	scens := []*c20Scen{
-		{name: "reload+suspend/first-fails", signals: []syscall.Signal{c20R, c20S}, firstClass: "fail"},
-		{name: "suspend+reload/first-staged", signals: []syscall.Signal{c20S, c20R}, firstClass: "staged"},
-		{name: "reload+reload/first-nonstaged", signals: []syscall.Signal{c20R, c20R}, firstClass: "nonstaged"},
+		{name: "R,S: fail* then staged", signals: sig(R, S), class: []string{"fail", "staged"}, canon: []bool{false, true}},
+		{name: "S,R: staged* then nonstaged", signals: sig(S, R), class: []string{"staged", "nonstaged"}, canon: []bool{false, true}},
+		{name: "R,R: nonstaged* then fail", signals: sig(R, R), class: []string{"nonstaged", "fail"}, canon: []bool{false, true}},
+		{name: "R,S: staged then any*", signals: sig(R, S), class: []string{"staged", ""}, canon: []bool{true, false}},
+		{name: "S,R: nonstaged then any*", signals: sig(S, R), class: []string{"nonstaged", ""}, canon: []bool{true, false}},
 	}
 	if thorough {
 		scens = append(scens,
-			&c20Scen{name: "reload+suspend+reload/first-fails", signals: []syscall.Signal{c20R, c20S, c20R}, firstClass: "fail"},
-			&c20Scen{name: "reload+reload+suspend/first-staged", signals: []syscall.Signal{c20R, c20R, c20S}, firstClass: "staged"},
-			&c20Scen{name: "suspend+reload+reload/first-nonstaged", signals: []syscall.Signal{c20S, c20R, c20R}, firstClass: "nonstaged"},
+			&c20Scen{name: "R,R: fail then any*", signals: sig(R, R), class: []string{"fail", ""}, canon: []bool{true, false}},
+			&c20Scen{name: "R,S,R: fail* staged fail", signals: sig(R, S, R), class: []string{"fail", "staged", "fail"}, canon: []bool{false, true, true}},
+			&c20Scen{name: "S,R,R: staged* nonstaged staged", signals: sig(S, R, R), class: []string{"staged", "nonstaged", "staged"}, canon: []bool{false, true, true}},
+			&c20Scen{name: "R,R,S: nonstaged* fail nonstaged", signals: sig(R, R, S), class: []string{"nonstaged", "fail", "nonstaged"}, canon: []bool{false, true, true}},
+			&c20Scen{name: "R,S: fail* then fail*", signals: sig(R, S), class: []string{"fail", "fail"}, canon: []bool{false, false}},
+			&c20Scen{name: "R,S: staged* then staged*", signals: sig(R, S), class: []string{"staged", "staged"}, canon: []bool{false, false}},
 		)
 	}
 	var out []*vsched.Scenario
